@@ -278,3 +278,56 @@ pub fn canary(client_port: u16, n: u32, tag: u64) -> Result<(), FlowFail> {
         None => Ok(()),
     }
 }
+
+/// "Cold" upload: the application completes the handshake, writes `n` bytes and closes at once (a real close(), no
+/// warm-up exchange, no sync); the target starts reading `delay_ms` later and must read exactly those bytes and then
+/// end-of-stream. This is the everyday shape of a one-shot upload.
+pub fn cold_upload(client_port: u16, hs: Hs, n: u32, tag: u64, delay_ms: u16) -> Result<(), FlowFail> {
+    use std::io::Read;
+    let listener = Listener::bind();
+    let (mut app, pre) = net::app_connect(client_port, hs, listener.port, Duration::from_secs(15)).map_err(|e| soft("handshake", format!("local {} handshake failed: {}", hs.name(), e)))?;
+    let n = (n as usize).max(1);
+    net::write_ks(&mut app, tag, 0, n).map_err(|e| soft("app-write", format!("write of {} bytes: {}", n, e)))?;
+    drop(app);
+    let Some(mut tgt) = listener.accept(wait()) else {
+        return Err(soft("no-dial", format!("the target was not dialled within {:?} after a {}-byte upload", wait(), n)));
+    };
+    std::thread::sleep(Duration::from_millis(delay_ms as u64));
+    tgt.set_read_timeout(Some(wait())).ok();
+    let want = pre.len() + n;
+    let mut got = Vec::with_capacity(want);
+    let mut buf = vec![0u8; 65536];
+    let mut how = String::from("more bytes than were written");
+    loop {
+        match tgt.read(&mut buf) {
+            Ok(0) => {
+                how = "end-of-stream".to_string();
+                break;
+            }
+            Ok(k) => got.extend_from_slice(&buf[..k]),
+            Err(e) if e.kind() == std::io::ErrorKind::WouldBlock || e.kind() == std::io::ErrorKind::TimedOut => {
+                return Err(soft("no-eof-at-target", format!("application wrote {} bytes and closed; the target has {} bytes and no end-of-stream after {:?}", want, got.len(), wait())));
+            }
+            Err(e) => {
+                how = format!("error {}", e);
+                break;
+            }
+        }
+        if got.len() > want {
+            break;
+        }
+    }
+    let mut exp = pre.clone();
+    exp.extend_from_slice(&crate::gen::keystream(tag, 0, n));
+    if got.len() < want {
+        return Err(hard("upload-truncated", format!("application wrote {} bytes and closed; the target got {} bytes and then {}", want, got.len(), how)));
+    }
+    if got != exp {
+        let at = got.iter().zip(exp.iter()).position(|(a, b)| a != b).unwrap_or(exp.len());
+        return Err(hard("target-wrong-byte", format!("byte {} received by the target differs from what the application wrote ({} of {} bytes)", at, got.len(), want)));
+    }
+    if listener.pending() > 0 {
+        return Err(hard("extra-dial", "the target port was dialled more than once for one flow".into()));
+    }
+    Ok(())
+}
